@@ -73,8 +73,8 @@ func runGiant(c GiantCase, x *ev.Ctx) error {
 }
 
 var giantSpec = ev.Spec[GiantCase]{
-	ID:  "C06",
-	Run: runGiant,
+	ID:   "C06",
+	Run:  runGiant,
 	Rule: "fixed size class: CRLs of >= 16 MiB (4 length bytes at outer / tbs / list level), written by the streaming encoder, read back in the listed encodings and compared with the whole-document reference decode",
 }
 
